@@ -38,23 +38,27 @@ def parse_grid(state, key, n):
     return v if len(v) == n else None
 
 
-def abf_walker_scenario(case, w, wd):
+def abf_walker_scenario(case, w, wd, t0=0, t1=None, load=False):
+    """steps t0..t1 of walker w; with load=True the process starts from the state written by the previous segment
+    (fresh process: step t0 is the repetition of the last step of that segment)"""
     F, T = case["F"], case["T"]
-    s = ctl.header("same", extra="dt 1.0\ntemp 0.0\nreplicas %s %d %d %d %d" % (case["rdir"], w, case["nw"], case["seed"] + w, case["delay"]))
-    s += "emit atoms off\nmodule\nprefix %s\nconfig <<EOC\n%sEOC\ninit\n" % (os.path.join(wd, "w%d" % w), abf_config(F))
+    t1 = T if t1 is None else t1
+    prefix = os.path.join(wd, "w%d" % w)
+    s = ctl.header("same", extra="dt 1.0\ntemp 0.0\nreplicas %s %d %d %d %d" % (case["rdir"], w, case["nw"], case["seed"] + w + 17 * t0, case["delay"]))
+    s += "emit atoms off\nmodule\nprefix %s\nconfig <<EOC\n%sEOC\n" % (prefix, abf_config(F))
+    if load:
+        s += "inprefix %s\n" % prefix
+    s += "init\n"
     h = case["hist"][w]
     sv = case["s"][w]
-    for t in range(T + 1):
-        if (w, t) in case["restarts"]:
-            # restart of this walker at an exchange boundary: handled by splitting the scenario
-            pass
-        if (w, t) in case["newruns"]:
+    for t in range(t0, t1 + 1):
+        if (w, t) in case["newruns"] and t > t0:
             s += "newrun\nstep\nmark repeat\n"
         f = [[0.0, 0.0, 0.0] for _ in range(ctl.NATOMS)]
         f[2][2] = sv[t]
         f[3][2] = -sv[t]
         s += ctl.pos_line(d2=h[t]) + "\n" + "fext " + " ".join(fnum(x) for q in f for x in q) + "\nstep\n"
-        if t > 0 and t % F == 0:
+        if t > 0 and t % F == 0 and not (load and t == t0):
             s += "savestr\n"
     s += "endrun\n"
     return s
@@ -71,7 +75,7 @@ def run_abf(c, tier):
         cases.append(dict(idx=i, nw=nw, F=F, T=T, seed=rng.getrandbits(30), delay=rng.choice([0, 200, 2000]),
                           hist=[[ctl.dy(rng, LO - 1.0, HI + 0.75, 3) for _ in range(T + 1)] for _ in range(nw)],
                           s=[[ctl.dy(rng, -6, 6, 4) for _ in range(T + 1)] for _ in range(nw)],
-                          restarts=set(), newruns=set((rng.randrange(nw), F * rng.randint(1, T // F - 1)) for _ in range(rng.choice([0, 1, 2])))))
+                          restarts=(set([(rng.randrange(nw), F * rng.randint(1, T // F - 1))]) if rng.random() < 0.4 else set()), newruns=set((rng.randrange(nw), F * rng.randint(1, T // F - 1)) for _ in range(rng.choice([0, 1, 2])))))
 
     def do(case):
         wd = os.path.join(c.work, "abf%d" % case["idx"])
@@ -79,7 +83,17 @@ def run_abf(c, tier):
         case["rdir"] = wd
 
         def one(w):
-            return common.run_esim("plain", abf_walker_scenario(case, w, wd), wd, "w%d" % w, timeout=300)
+            rs = sorted(t for (v, t) in case["restarts"] if v == w)
+            if not rs:
+                return common.run_esim("plain", abf_walker_scenario(case, w, wd), wd, "w%d" % w, timeout=300)
+            # this walker stops after an exchange step, and a fresh process resumes from its state file
+            # while the other walkers keep running (they block at the next exchange)
+            t = rs[0]
+            r1, ev1, sp1 = common.run_esim("plain", abf_walker_scenario(case, w, wd, 0, t), wd, "w%d_a" % w, timeout=300)
+            if not r1["complete"]:
+                return r1, ev1, sp1
+            r2, ev2, sp2 = common.run_esim("plain", abf_walker_scenario(case, w, wd, t, None, load=True), wd, "w%d_b" % w, timeout=300)
+            return r2, ev1 + ev2, sp2
         return common.pmap(one, list(range(case["nw"])), jobs=case["nw"])
 
     # walkers of one case must run concurrently (blocking exchanges); cases run 4 at a time
@@ -87,7 +101,7 @@ def run_abf(c, tier):
     for case, outs in zip(cases, res):
         c.count()
         nw, F, T = case["nw"], case["F"], case["T"]
-        key = "abf:nw%d:F%d" % (nw, F)
+        key = "abf:nw%d:F%d" % (nw, F) + (":after_walker_restart" if case["restarts"] else "")
         if any(not r["complete"] for r, ev, sp in outs):
             bad = [(r["sig"], r["timeout"], r["err"][-200:]) for r, ev, sp in outs if not r["complete"]]
             if any(b[0] for b in bad):
@@ -135,12 +149,12 @@ def run_abf(c, tier):
                     ok = False
                     break
                 if [int(x) for x in oc] != gc:
-                    c.violation("global_counts:" + key, "walker %d after exchange at step %d: stored %s, union of all walkers %s" % (w, t, oc, gc),
+                    c.violation("global_counts:" + (key if not case["restarts"] else "abf:after_walker_restart"), "walker %d after exchange at step %d: stored %s, union of all walkers %s" % (w, t, oc, gc),
                                 [o[2] for o in outs])
                     ok = False
                     break
                 if [int(x) for x in olc] != lc:
-                    c.violation("local_counts:" + key, "walker %d at step %d: local %s, own contribution %s" % (w, t, olc, lc), [o[2] for o in outs])
+                    c.violation("local_counts:" + (key if not case["restarts"] else "abf:after_walker_restart"), "walker %d at step %d: local %s, own contribution %s" % (w, t, olc, lc), [o[2] for o in outs])
                     ok = False
                     break
                 for b in range(NB):
@@ -158,7 +172,8 @@ def run_abf(c, tier):
                 break
         if ok:
             c.bump("abf_exchanges_checked", nex)
-            c.nontrivial("abf|nw%d|F%d|delay%d|newruns%d|%d" % (nw, F, case["delay"], len(case["newruns"]), case["idx"]))
+            c.nontrivial("abf|nw%d|F%d|delay%d|newruns%d|restarts%d|%d" % (nw, F, case["delay"], len(case["newruns"]), len(case["restarts"]), case["idx"]))
+            c.bump("abf_walker_restarts", len(case["restarts"]))
             c.sample({"part": "shared ABF", "walkers": nw, "sharedFreq": F, "steps": T, "max_delay_us": case["delay"],
                       "run_boundaries": sorted(case["newruns"]), "exchanges_checked": nex}, cap=4)
 
